@@ -12,6 +12,7 @@ harness/asm/runner.py and the observed results are judged by TLC
 import json
 import os
 import random
+from concurrent.futures import ThreadPoolExecutor
 from typing import Dict, List
 
 from .. import core, tlc
@@ -28,8 +29,8 @@ CONFIGS = {
         "thorough": ["Asm_sym_t.cfg", "Asm_chunk_t.cfg", "Asm_chunk2_t.cfg"],
     },
 }
-SAMPLE = {"C12": {"quick": 9000, "thorough": 120000},
-          "C13": {"quick": 6000, "thorough": 80000}}
+SAMPLE = {"C12": {"quick": 6000, "thorough": 100000},
+          "C13": {"quick": 4500, "thorough": 60000}}
 MC_TIMEOUT = {"quick": 300, "thorough": 1500}
 WORKERS = int(os.environ.get("VERIF_TLC_WORKERS", "16"))
 
@@ -100,6 +101,7 @@ def sample_cases(src: str, dst: str, n: int, rng: random.Random, prop: str, tier
             nchunks = max((t["ch"] for t in c["toks"]), default=1)
             c["rw"] = RW_SITES if (prop == "C13" and nchunks == 1 and c.get("mexc") == ""
                                    and i % 3 == 0) else []
+            c["rwc"] = (i // 3) % 2   # every other rewrite: prologue/epilogue chunks
             out.write(json.dumps(c, separators=(",", ":")) + "\n")
     return len(chosen)
 
@@ -121,16 +123,28 @@ def run(prop: str, tier: str, replay: str = None) -> int:
         else:
             allc = os.path.join(wd, "all.ndjson")
             rep.extra["generated_cases"] = 0
+            cfgs = CONFIGS[prop][tier]
+            # the configurations are independent model-checking runs: run them
+            # side by side and share the cores between them
+            per = max(2, WORKERS // len(cfgs))
+
+            def gen(cfg: str) -> dict:
+                part = os.path.join(wd, cfg + ".ndjson")
+                res = tlc.generate("Asm.tla", cfg, "CASE", part, timeout=MC_TIMEOUT[tier],
+                                   workers=per, heap="4g")
+                res["part"] = part
+                return res
+
+            with ThreadPoolExecutor(max_workers=len(cfgs)) as ex:
+                results = list(ex.map(gen, cfgs))
             with open(allc, "w") as agg:
-                for cfg in CONFIGS[prop][tier]:
-                    part = os.path.join(wd, "part.ndjson")
-                    res = tlc.generate("Asm.tla", cfg, "CASE", part, timeout=MC_TIMEOUT[tier],
-                                       workers=WORKERS)
+                for cfg, res in zip(cfgs, results):
                     res["ok"] = res["ok"] and res["distinct"] > 0
                     rep.add_mc(cfg, res)
-                    with open(part) as f:
+                    with open(res["part"]) as f:
                         for line in f:
                             agg.write(line)
+                    os.remove(res["part"])
                     rep.extra["generated_cases"] += res["emitted"]
             sample_cases(allc, cases, SAMPLE[prop][tier], rng, prop, tier)
             os.remove(allc)
